@@ -52,6 +52,10 @@ def local_defs(fn):
                             d.setdefault(a.id, []).append(("unpack", i, n.value))
         elif isinstance(n, ast.AugAssign) and isinstance(n.target, ast.Name):
             d.setdefault(n.target.id, []).append(("aug", n.op, n.value))
+        elif isinstance(n, ast.NamedExpr) and isinstance(n.target, ast.Name):
+            d.setdefault(n.target.id, []).append(n.value)              # (n := len(xs))
+        elif isinstance(n, ast.AnnAssign) and isinstance(n.target, ast.Name) and n.value is not None:
+            d.setdefault(n.target.id, []).append(n.value)
         elif isinstance(n, (ast.For, ast.comprehension)):
             _bind_elem(d, n.target, n.iter)
     return d
@@ -853,6 +857,95 @@ class _ModuleConstants(ast.NodeTransformer):
 NORMALISER_NOTES = []
 
 
+class _NamedConditions(ast.NodeTransformer):
+    """`flag = <condition>` immediately followed by the one statement that reads `flag`, as (the first thing evaluated in)
+    its test: the condition is written back where it is tested
+
+        needs_computation = self.__lenght is None          if self.__lenght is None:
+        if needs_computation:                       ->         ...
+            ...
+
+    Only when the name is stored once and loaded once in the whole function, the reading statement is an `if`, an
+    `assert`, a `return` or an assignment of a conditional expression (a `while` test is evaluated again), and nothing
+    is evaluated between the two (the name is the test, its negation, or the first operand of an and / or)."""
+
+    COND = (ast.Compare, ast.BoolOp, ast.UnaryOp, ast.Call, ast.Attribute, ast.Subscript)
+
+    def _scan(self, fn):
+        stores, loads = {}, {}
+        for n in ast.walk(fn):
+            if isinstance(n, ast.Name):
+                d = stores if isinstance(n.ctx, (ast.Store, ast.Del)) else loads
+                d[n.id] = d.get(n.id, 0) + 1
+            elif isinstance(n, ast.arg):
+                stores[n.arg] = stores.get(n.arg, 0) + 1
+            elif isinstance(n, (ast.Global, ast.Nonlocal)):
+                for x in n.names:
+                    stores[x] = stores.get(x, 0) + 2
+        return {k for k in stores if stores[k] == 1 and loads.get(k, 0) == 1}
+
+    @staticmethod
+    def _first_slot(test, name):
+        """the node of `test` that is evaluated first, if it is the name (possibly negated): returns (parent, field, index)"""
+        if isinstance(test, ast.Name) and test.id == name:
+            return ("self", None, None)
+        if isinstance(test, ast.UnaryOp) and isinstance(test.op, ast.Not):
+            r = _NamedConditions._first_slot(test.operand, name)
+            if r is not None:
+                return (test, "operand", None) if r[0] == "self" else r
+        if isinstance(test, ast.BoolOp) and test.values:
+            r = _NamedConditions._first_slot(test.values[0], name)
+            if r is not None:
+                return (test, "values", 0) if r[0] == "self" else r
+        return None
+
+    def _fold(self, body, single):
+        out, i = [], 0
+        while i < len(body):
+            st = body[i]
+            nxt = body[i + 1] if i + 1 < len(body) else None
+            if isinstance(st, ast.Assign) and len(st.targets) == 1 and isinstance(st.targets[0], ast.Name) \
+                    and st.targets[0].id in single and isinstance(st.value, self.COND) and nxt is not None:
+                name = st.targets[0].id
+                holder, field = None, None
+                if isinstance(nxt, (ast.If, ast.Assert)):
+                    holder, field = nxt, "test"
+                elif isinstance(nxt, ast.Return) and nxt.value is not None:
+                    holder, field = nxt, "value"
+                elif isinstance(nxt, ast.Assign) and isinstance(nxt.value, ast.IfExp):
+                    holder, field = nxt.value, "test"
+                if holder is not None:
+                    slot = self._first_slot(getattr(holder, field), name)
+                    if slot is not None:
+                        val = st.value
+                        if slot[0] == "self":
+                            setattr(holder, field, val)
+                        elif slot[2] is None:
+                            setattr(slot[0], slot[1], val)
+                        else:
+                            getattr(slot[0], slot[1])[slot[2]] = val
+                        i += 1
+                        continue
+            out.append(st)
+            i += 1
+        return out
+
+    def visit_FunctionDef(self, node):
+        self.generic_visit(node)
+        for _ in range(3):
+            single = self._scan(node)
+            if not single:
+                break
+            for holder in ast.walk(node):
+                for field in ("body", "orelse", "finalbody"):
+                    b = getattr(holder, field, None)
+                    if isinstance(b, list) and b and isinstance(b[0], ast.stmt):
+                        nb = self._fold(b, single)
+                        if len(nb) != len(b):
+                            setattr(holder, field, nb)
+        return node
+
+
 def desugar_match(tree, renames=None):
     """normal forms applied once, right after parsing, so that every engine sees spellings it knows: qualified names for
     `from numpy / math import ..`, higher-order spellings made first-order, method aliases read through, simple `match`
@@ -869,7 +962,8 @@ def desugar_match(tree, renames=None):
               ("match statements", lambda t: _MatchDesugar().visit(t)),
               ("type(x)", lambda t: _TypeCall().visit(t)),
               ("written-out asserts", lambda t: _AssertForm().visit(t)),
-              ("contextlib.suppress", lambda t: _SuppressForm().visit(t))]
+              ("contextlib.suppress", lambda t: _SuppressForm().visit(t)),
+              ("named conditions", lambda t: _NamedConditions().visit(t))]
     for label, fn in passes:
         work = _copy.deepcopy(tree)
         try:
